@@ -1272,11 +1272,25 @@ func (c *dtChannel) cancel(ctx context.Context) chan error {
 
 		// Ignore "request not found" errors
 		if err != nil && !errors.Is(err, graphsync.RequestNotFoundErr{}) {
-			errch <- fmt.Errorf("cancelling graphsync request for channel %s: %w", c.channelID, err)
+			err = fmt.Errorf("cancelling graphsync request for channel %s: %w", c.channelID, err)
 		} else {
-			errch <- nil
+			err = nil
+		}
+		select {
+		case errch <- err:
+		default:
 		}
 	}()
+
+	// Fail-safe: graphsync does not confirm the cancellation of a request that
+	// was pausing when it was cancelled, so give up waiting after a certain
+	// amount of time (callers may be waiting while they hold the channel lock)
+	time.AfterFunc(maxGSCancelWait, func() {
+		select {
+		case errch <- nil:
+		default:
+		}
+	})
 
 	return errch
 }
